@@ -4,7 +4,7 @@ from fractions import Fraction
 from pcv import core, capio
 
 P = "PcVerif.Props.C08."
-THEOREMS = [P + t for t in ["coarsen_idempotent", "grids_nested", "chain_coarsest", "second_pass_identity"]]
+THEOREMS = [P + t for t in ["coarsen_idempotent", "grids_nested", "chain_coarsest", "second_pass_identity", "srt_hop", "srt_hop_instant"]]
 FORMATS = ["srt", "webvtt", "dfxp", "sami", "microdvd"]
 WORDS = ["hello", "world", "Q&A", "a<b", "1>0", "it's", '"quoted"', "é", "中文", "100%", "fox", "two", "I", "x", "&amp;", "--", "{1}", "&lt;", "&gt;", "&nbsp;", "&#38;", "AT&T;"]
 
@@ -61,18 +61,30 @@ def gen_set(rng, nlang):
         for _ in range(rng.randint(1, 5)):
             d = rng.choice([1000000, 1500000, 2040000, 999999, 1234567])
             lines = [" ".join(rng.choice(WORDS) for _ in range(rng.randint(1, 4))) for _ in range(rng.randint(1, 3))]
-            caps.append((t, t + d, capio.nodes_from_lines(lines)))
+            if len(lines) >= 2 and rng.random() < 0.15:
+                # a line holding nothing but a no-break space (what WebVTT's "&nbsp;" filler line reads as)
+                lines.insert(rng.randint(1, len(lines) - 1), "\u00a0")
+            nodes = capio.nodes_from_lines(lines)
+            if len(lines) >= 2 and rng.random() < 0.25:
+                # an empty line, and a style node (often one that renders as nothing) right before a break
+                fl = rng.choice([(False, False, False), (False, False, False), (True, False, False), (False, True, False)])
+                k = next(i for i, n in enumerate(nodes) if n[0] == "B")
+                nodes = nodes[:k + 1] + [("S", True) + fl, ("B",)] + nodes[k + 1:] + [("S", False) + fl]
+            caps.append((t, t + d, nodes))
             t += d + rng.choice([0, 1000, 40000, 2000000, 123456])
         langs[["en-US", "fr-FR", "de-DE"][li]] = caps
     return langs
 
 
-def run_chain(cs, chain):
+def run_chain(cs, chain, objs=None):
+    """objs: reader / writer objects kept for the whole case (both passes), as a converter service would keep them"""
     R, W = rw()
     states = []
     for f in chain:
-        doc = W[f]().write(cs)
-        cs = R[f]().read(doc)
+        w = objs.setdefault(("w", f), W[f]()) if objs is not None else W[f]()
+        r = objs.setdefault(("r", f), R[f]()) if objs is not None else R[f]()
+        doc = w.write(cs)
+        cs = r.read(doc)
         states.append(obs(cs))
     return cs, states
 
@@ -93,12 +105,13 @@ def explore(chk):
             abstract = gen_set(rng, rng.choice([1, 2, 3]) if multi_ok else 1)
             cs0 = capio.build_set(abstract)
             start = obs(cs0)
-            case = {"chain": chain, "set": {l: [(s, e, [n[1] for n in ns if n[0] == "T"]) for (s, e, ns) in caps] for l, caps in abstract.items()}}
+            case = {"chain": chain, "shared_objects": bool(k % 2), "set": {l: [(s, e, [n[1] for n in ns if n[0] == "T"]) for (s, e, ns) in caps] for l, caps in abstract.items()}}
             chk.case(key=json.dumps(case, sort_keys=True), nontrivial=len(chain) >= 2, sample=case if chk.count_get("n") in (4, 90) else None)
             chk.count("n"); chk.count("len_%d" % len(chain))
             try:
-                cs1, states = run_chain(cs0, chain)
-                cs2, states2 = run_chain(cs1, chain)
+                objs = {} if k % 2 else None      # every other case keeps its reader and writer objects across hops and passes
+                cs1, states = run_chain(cs0, chain, objs)
+                cs2, states2 = run_chain(cs1, chain, objs)
             except Exception as e:
                 chk.property_failure(dict(case, error=repr(e)[:400]), "a hop of the chain raised %s" % type(e).__name__)
                 continue
